@@ -549,10 +549,163 @@ def build_typed(d, nt):
     raise ValueError(k)
 
 
-def build_region(case):
-    reg = build_typed(case['region'], case.get('numtype', 'pyfloat'))
-    reg.visual = build_visual(case.get('visual', []))
+def conv(nt):
+    """(scalar, array) constructors of the numeric type."""
+    if nt == 'pyfloat':
+        return (lambda v: float(v)), (lambda l: [float(v) for v in l])
+    if nt == 'pyint':
+        return (lambda v: int(v)), (lambda l: [int(v) for v in l])
+    return (lambda v: NP_TYPES[nt](v)), (lambda l: np.array(l, dtype=NP_TYPES[nt]))
+
+
+def reassign_typed(reg, d, nt):
+    """give the EXISTING object the parameters of `d` through the public setters, in the numeric
+    type `nt` (regular polygons keep their parameters: their vertices are fixed at construction)."""
+    import astropy.units as u
+    from regions import PixCoord
+    S, A = conv(nt)
+    P = lambda p: PixCoord(S(p[0]), S(p[1]))
+    ANG = lambda a: a[0] * u.Unit(a[1])
+    k = d['kind']
+    if k == 'circle':
+        reg.center = P(d['c']); reg.radius = S(d['r'])
+    elif k in ('ellipse', 'rectangle'):
+        reg.angle = ANG(d['angle']); reg.height = S(d['h']); reg.width = S(d['w']); reg.center = P(d['c'])
+    elif k == 'polygon':
+        reg.vertices = PixCoord(A([p[0] for p in d['v']]), A([p[1] for p in d['v']]))
+    elif k == 'circle_annulus':
+        reg.center = P(d['c'])
+        reg.outer_radius = float(max(d['r2'], float(reg.inner_radius) * 2 + 1))      # keep inner < outer at every step
+        reg.inner_radius = S(d['r1']); reg.outer_radius = S(d['r2'])
+    elif k in ('ellipse_annulus', 'rectangle_annulus'):
+        reg.center = P(d['c'])
+        reg.outer_width = float(max(d['w2'], float(reg.inner_width) * 2 + 1))
+        reg.outer_height = float(max(d['h2'], float(reg.inner_height) * 2 + 1))
+        reg.inner_width = S(d['w1']); reg.inner_height = S(d['h1'])
+        reg.outer_width = S(d['w2']); reg.outer_height = S(d['h2'])
+        reg.angle = ANG(d['angle'])
+    elif k == 'point':
+        reg.center = P(d['c'])
+    elif k == 'text':
+        reg.center = P(d['c']); reg.text = d.get('text', 'label')
+    elif k == 'line':
+        reg.start = P(d['a']); reg.end = P(d['b'])
+    elif k == 'regular_polygon':
+        pass
+    else:
+        raise ValueError(k)
+    reg.meta.pop('include', None)
+    if d.get('include', 'absent') != 'absent':
+        reg.meta['include'] = G.INCLUDE_VALUE[d['include']]
     return reg
+
+
+def use_region(reg, prev):
+    """use the object before it is re-parametrised (nothing computed here may survive)."""
+    from regions import PixCoord
+    o = tuple(prev.get('origin', (0, 0)))
+    for what in prev.get('use', []):
+        try:
+            if what == 'as_artist':
+                reg.as_artist(origin=o)
+            elif what == 'plot':
+                reg.plot(origin=o, ax=plot_axes()).remove()
+            elif what == 'bounding_box':
+                reg.bounding_box
+            elif what == 'contains':
+                reg.contains(PixCoord(0.5, 0.25))
+            elif what == 'warm':
+                G.warm(reg)
+        except Exception:
+            pass            # the history only has to have happened (e.g. a visual matplotlib rejects)
+
+
+def build_region(case):
+    """the region of a case.  With a 'prev' entry (history) the object is first built with other (or the
+    same) parameters and visual attributes, USED (as_artist / plot / bounding_box / contains), and then
+    re-parametrised in place through the public setters; the visual dictionary is replaced or mutated."""
+    nt = case.get('numtype', 'pyfloat')
+    prev = case.get('prev')
+    if prev is None or case['region']['kind'] == 'compound':
+        reg = build_typed(case['region'], nt)
+        reg.visual = build_visual(case.get('visual', []))
+        return reg
+    reg = build_typed(prev['region'], nt)
+    reg.visual = build_visual(prev.get('visual', []))
+    with warnings.catch_warnings():
+        warnings.simplefilter('ignore')
+        use_region(reg, prev)
+    reassign_typed(reg, case['region'], nt)
+    new = build_visual(case.get('visual', []))
+    if prev.get('visual_mode') == 'mutate':
+        for k in list(reg.visual):
+            del reg.visual[k]
+        for k, v in new.items():
+            reg.visual[k] = v
+    else:
+        reg.visual = new
+    return reg
+
+
+def snapshot(reg):
+    """everything a drawing call must leave alone: parameters (values, dtypes), meta, visual."""
+    from regions import CompoundPixelRegion
+    if isinstance(reg, CompoundPixelRegion):
+        return ['Compound', reg.operator.__name__, snapshot(reg.region1), snapshot(reg.region2),
+                [[k, repr(v)] for k, v in reg.meta.items()], [[k, repr(v)] for k, v in reg.visual.items()]]
+    out = [type(reg).__name__]
+    names = list(reg._params) + (['vertices'] if hasattr(reg, 'vertices') and 'vertices' not in reg._params else [])
+    for name in names:
+        v = getattr(reg, name)
+        if hasattr(v, 'x') and hasattr(v, 'y'):
+            out.append([name, str(np.asarray(v.x).dtype), np.asarray(v.x).tolist(), str(np.asarray(v.y).dtype), np.asarray(v.y).tolist()])
+        elif hasattr(v, 'unit'):
+            out.append([name, repr(v.value), str(v.unit)])
+        else:
+            out.append([name, type(v).__name__, repr(v)])
+    out.append([[k, repr(v)] for k, v in reg.meta.items()])
+    out.append([[k, repr(v)] for k, v in reg.visual.items()])
+    return out
+
+
+def geom_of(art):
+    """the geometric state of an artist of any class (for the shared-state / second-origin checks)."""
+    n = real_class(art).__name__
+    if n == 'Line2D':
+        return {'xdata': [float(v) for v in art.get_xdata()], 'ydata': [float(v) for v in art.get_ydata()]}
+    if n == 'Text':
+        return {'position': [float(v) for v in art.get_position()], 'text': art.get_text()}
+    if n == 'Arrow':
+        v = art.get_patch_transform().transform_path(art.get_path()).vertices
+        return {'verts': [[float(q[0]), float(q[1])] for q in v]}
+    return Check._attrs(art)
+
+
+def shifted(g1, g2, dx, dy, tol):
+    """is geometry g2 the geometry g1 moved by (dx, dy), everything else equal?  -> list of differences"""
+    errs = []
+    if set(g1) != set(g2):
+        return [f'attributes {sorted(g1)} vs {sorted(g2)}']
+    for k, v1 in g1.items():
+        v2 = g2[k]
+        if k in ('center', 'xy', 'position') and v1 and not isinstance(v1[0], list):
+            if abs(v2[0] - (v1[0] + dx)) > tol or abs(v2[1] - (v1[1] + dy)) > tol:
+                errs.append(f'{k}: {v2} expected {[v1[0] + dx, v1[1] + dy]}')
+        elif k in ('xy', 'verts'):
+            if len(v1) != len(v2) or any(abs(q[0] - (p[0] + dx)) > tol or abs(q[1] - (p[1] + dy)) > tol for p, q in zip(v1, v2)):
+                errs.append(f'{k}: vertices are not the first artist\'s moved by the origin difference')
+        elif k == 'xdata':
+            if len(v1) != len(v2) or any(abs(q - (p + dx)) > tol for p, q in zip(v1, v2)):
+                errs.append(f'xdata {v2} expected {[p + dx for p in v1]}')
+        elif k == 'ydata':
+            if len(v1) != len(v2) or any(abs(q - (p + dy)) > tol for p, q in zip(v1, v2)):
+                errs.append(f'ydata {v2} expected {[p + dy for p in v1]}')
+        elif isinstance(v1, float):
+            if abs(v1 - v2) > 1e-9 * max(1.0, abs(v1)):
+                errs.append(f'{k}: {v2} vs {v1}')
+        elif v1 != v2:
+            errs.append(f'{k}: {v2!r} vs {v1!r}')
+    return errs
 
 
 def origin_arg(case):
@@ -718,10 +871,26 @@ class Check(PropertyCheck):
                                  include=d.get('include'))
             d = retype_desc(d, nt)
             npts = 0 if kind in G.EMPTY_KINDS else (24 if tier == 'quick' else 30)
-            cases.append({'kind': 'shape', 'region': d, 'numtype': nt, 'origin': gen_origin(rng, d),
-                          'origin_type': rng.choice(ORIGIN_TYPES), 'via': rng.choice(['as_artist', 'as_artist', 'plot']),
-                          'visual': gen_visual(rng, ak), 'caller': gen_caller(rng, ak),
-                          'pts': [list(p) for p in query_points(rng, d, npts)]})
+            case = {'kind': 'shape', 'region': d, 'numtype': nt, 'origin': gen_origin(rng, d),
+                    'origin_type': rng.choice(ORIGIN_TYPES), 'via': rng.choice(['as_artist', 'as_artist', 'plot']),
+                    'visual': gen_visual(rng, ak), 'caller': gen_caller(rng, ak),
+                    'pts': [list(p) for p in query_points(rng, d, npts)]}
+            if rng.random() < 0.6:
+                case['origin2'] = gen_origin(rng, d)              # a second artist from the same object
+            if rng.random() < 0.4:
+                # history: the object was built with other (or the same) parameters, used, and re-parametrised in place
+                import copy
+                if kind == 'regular_polygon' or rng.random() < 0.3:
+                    pd = copy.deepcopy(d)
+                else:
+                    pd = retype_desc(G.gen_simple(rng, kind=kind, scale=rng.choice([1.0, 3.0, 10.0]), center_scale=rng.choice([0, 5, 100])), nt)
+                    if kind == 'text':
+                        pd['text'] = 'old label'
+                uses = ['as_artist', 'plot', 'bounding_box', 'contains', 'warm']
+                case['prev'] = {'region': pd, 'visual': gen_visual(rng, ak), 'origin': gen_origin(rng, pd),
+                                'use': ['as_artist'] + rng.sample(uses, rng.randint(0, 3)),
+                                'visual_mode': rng.choice(['assign', 'mutate'])}
+            cases.append(case)
         n2 = 60 if tier == 'quick' else 1500
         for _ in range(n2):
             leaf = lambda: G.gen_simple(rng, kind=rng.choice(['circle', 'ellipse', 'rectangle']), scale=rng.choice([1.0, 4.0]),
@@ -783,8 +952,10 @@ class Check(PropertyCheck):
         out['define'] = canon_kw(reg.visual.define_mpl_kwargs(getattr(reg, '_mpl_artist', 'Patch')))
         out['model_region'] = model_region(d, reg)
         origin = origin_arg(case)
+        origin_before = repr(origin)
+        snap0 = snapshot(reg)
         art = None
-        if case.get('via') == 'plot':
+        if case.get('via') == 'plot' or case.get('prev'):
             plot_axes()                          # created outside the recorder
         with Recorder() as rec:
             try:
@@ -818,6 +989,21 @@ class Check(PropertyCheck):
             return out
         out['cls'] = real_class(art).__name__
         out['cls_module'] = real_class(art).__module__
+        # drawing leaves the region and the origin argument alone; a second artist made from the same object
+        # with another origin is that origin's artist and does not share state with the first one
+        g1 = geom_of(art)
+        if 'origin2' in case:
+            o2 = origin_arg(dict(case, origin=case['origin2']))
+            try:
+                art2 = reg.as_artist(origin=o2, **caller)
+                out['geom1'] = g1
+                out['geom2'] = geom_of(art2)
+                out['second_is_new_object'] = art2 is not art
+                out['first_unchanged'] = geom_of(art) == g1
+            except Exception as e:
+                out['second_exc'] = f'{type(e).__name__}: {e}'[:160]
+        out['region_unchanged'] = snapshot(reg) == snap0
+        out['origin_unchanged'] = repr(origin) == origin_before
         out['getters'] = self._getters(art, ak, dict(caller, **({'width': caller.get('width', 0.1)} if d['kind'] == 'line' else {})))
         ox, oy = float(case['origin'][0]), float(case['origin'][1])
         if ak == 'Line2D':
@@ -1103,7 +1289,7 @@ class Check(PropertyCheck):
         icls = int_class(case) if kind == 'shape' else None
 
         def bad(k, detail, **kw):
-            ctx = {x: case[x] for x in ('region', 'numtype', 'origin', 'origin_type', 'via', 'visual', 'caller', 'artist', 'box') if x in case}
+            ctx = {x: case[x] for x in ('region', 'numtype', 'origin', 'origin2', 'origin_type', 'via', 'prev', 'visual', 'caller', 'artist', 'box') if x in case}
             V.append(dict(kind=k, detail=f'{detail} :: {ctx}', int_class=icls, **kw))
         if kind == 'kwargs':
             # first principles: defaults <| visual <| caller, per key
@@ -1154,6 +1340,22 @@ class Check(PropertyCheck):
                    'line': 'Arrow', 'point': 'Line2D', 'text': 'Text'}.get(d['kind'], 'PathPatch')
         if real['cls'] != exp_cls or not real['cls_module'].startswith('matplotlib.'):
             bad('artist_class', f'{real["cls_module"]}.{real["cls"]} expected {exp_cls}')
+        if not real.get('region_unchanged', True):
+            bad('region_changed_by_drawing', 'parameters / vertex arrays / meta / visual of the region differ after as_artist/plot')
+        if not real.get('origin_unchanged', True):
+            bad('origin_argument_changed_by_drawing', 'the origin object passed by the caller was modified')
+        if 'second_exc' in real:
+            bad('second_artist_raised', real['second_exc'])
+        if 'geom2' in real:
+            if not real['second_is_new_object'] or not real['first_unchanged']:
+                bad('artists_share_state', 'making a second artist returned the same object or changed the first one')
+            o1, o2 = case['origin'], case['origin2']
+            t2 = self._tol(case) + 1e-9 * (abs(o2[0]) + abs(o2[1]))
+            if case.get('numtype') == 'float32' and d['kind'] == 'polygon':
+                t2 = 2.0 ** -22 * (t2 / 1e-9)
+            errs = shifted(real['geom1'], real['geom2'], float(o1[0]) - float(o2[0]), float(o1[1]) - float(o2[1]), t2)
+            if errs:
+                bad('second_artist_wrong', f'origin2={o2}: ' + '; '.join(errs[:3]))
         if case.get('via') == 'plot' and not real.get('in_axes'):
             bad('plot_artist_not_in_axes', 'plot() returned an artist that was not added to the given axes')
         tol = self._tol(case)
